@@ -117,8 +117,7 @@ static int check_dot(e2fsck_t ctx, struct ext2_dir_entry *dirent, ext2_ino_t ino
 #include "p2_common.h"
 
 /* check_dot is only called in dot_state 0, i.e. before `offset` has been advanced: the entry is the first of the
- * block (salvage_directory moves `offset` only when it has a previous entry, and there is none yet) */
-#define P2_DOT_OFF 0u
+ * block (salvage_directory moves `offset` only when it has a previous entry, and there is none yet): P2_VIEW_BLOCK0 */
 
 /* C01: accept every repair; a second run finds nothing to do */
 void h_dot_converge(void)
@@ -128,16 +127,16 @@ void h_dot_converge(void)
 	int r1, r2;
 
 	LOAD_IN();
-	p2_setup(&w, P2_YES, P2_DOT_OFF);
+	p2_setup(&w, P2_YES, P2_VIEW_BLOCK0);
 	ASSUME(IN.ino != 0);
-	ASSUME(p2_callsite_ok(IN.blk, P2_DOT_OFF));
+	ASSUME(p2_callsite_ok(IN.blk, 0));
 
 	r1 = check_dot(w.ctx, w.dirent, IN.ino, &w.pctx);
 	if (r1) REACH("first run repaired something");
 	CHECK(r1 == (p2_nlog != 0), "answer yes: 'modified' is reported exactly when a problem was raised");
 	/* the repaired entry still satisfies the call-site facts of the next e2fsck run */
-	CHECK(p2_callsite_ok(w.buf, P2_DOT_OFF), "repaired '.' entry is still a well-delimited entry");
-	CHECK(P2F_DOT_FORMAT_OK(w.buf, P2_DOT_OFF, IN.ino), "after accepted repairs the entry is a format-valid '.'");
+	CHECK(p2_callsite_ok(w.buf, 0), "repaired '.' entry is still a well-delimited entry");
+	CHECK(P2F_DOT_FORMAT_OK(w.buf, 0, IN.ino), "after accepted repairs the entry is a format-valid '.'");
 
 	b1 = w.buf[IN.k];
 	p2_clear_log();
@@ -156,10 +155,10 @@ void h_dot_detect(void)
 	int r;
 
 	LOAD_IN();
-	p2_setup(&w, P2_NO, P2_DOT_OFF);
+	p2_setup(&w, P2_NO, P2_VIEW_BLOCK0);
 	ASSUME(IN.ino != 0);
-	ASSUME(p2_callsite_ok(IN.blk, P2_DOT_OFF));
-	ASSUME(!P2F_DOT_FORMAT_OK(IN.blk, P2_DOT_OFF, IN.ino));
+	ASSUME(p2_callsite_ok(IN.blk, 0));
+	ASSUME(!P2F_DOT_FORMAT_OK(IN.blk, 0, IN.ino));
 
 	r = check_dot(w.ctx, w.dirent, IN.ino, &w.pctx);
 	CHECK(p2_nserious >= 1, "a malformed '.' raises at least one problem without PR_NO_OK");
@@ -175,10 +174,10 @@ void h_dot_sound(void)
 	int r;
 
 	LOAD_IN();
-	p2_setup(&w, P2_CHOICE, P2_DOT_OFF);
+	p2_setup(&w, P2_CHOICE, P2_VIEW_BLOCK0);
 	ASSUME(IN.ino != 0);
-	ASSUME(p2_callsite_ok(IN.blk, P2_DOT_OFF));
-	ASSUME(P2F_DOT_HEALTHY(IN.blk, P2_DOT_OFF, IN.ino));
+	ASSUME(p2_callsite_ok(IN.blk, 0));
+	ASSUME(P2F_DOT_HEALTHY(IN.blk, 0, IN.ino));
 
 	r = check_dot(w.ctx, w.dirent, IN.ino, &w.pctx);
 	CHECK(p2_nlog == 0, "healthy '.': no problem raised");
@@ -196,10 +195,10 @@ void h_dot_grey(void)
 	unsigned i;
 
 	LOAD_IN();
-	p2_setup(&w, P2_CHOICE, P2_DOT_OFF);
+	p2_setup(&w, P2_CHOICE, P2_VIEW_BLOCK0);
 	ASSUME(IN.ino != 0);
-	ASSUME(p2_callsite_ok(IN.blk, P2_DOT_OFF));
-	ASSUME(P2F_DOT_FORMAT_OK(IN.blk, P2_DOT_OFF, IN.ino));
+	ASSUME(p2_callsite_ok(IN.blk, 0));
+	ASSUME(P2F_DOT_FORMAT_OK(IN.blk, 0, IN.ino));
 
 	r = check_dot(w.ctx, w.dirent, IN.ino, &w.pctx);
 	CHECK(p2_nlog <= 2, "at most two questions");
@@ -207,12 +206,12 @@ void h_dot_grey(void)
 		if (i < p2_nlog)
 			CHECK(p2_log[i] == PR_2_DOT_NULL_TERM || p2_log[i] == PR_2_SPLIT_DOT,
 			      "format-valid '.': only the NUL-termination and the split-slack conventions can be raised");
-	CHECK(!p2_logged(PR_2_DOT_NULL_TERM) || P2F_NAME(IN.blk, P2_DOT_OFF, 1) != 0, "NUL convention raised only when the byte is not NUL");
-	CHECK(!p2_logged(PR_2_SPLIT_DOT) || P2F_REC(IN.blk, P2_DOT_OFF) > 24u || p2_logged(PR_2_DOT_NULL_TERM),
+	CHECK(!p2_logged(PR_2_DOT_NULL_TERM) || P2F_NAME(IN.blk, 0, 1) != 0, "NUL convention raised only when the byte is not NUL");
+	CHECK(!p2_logged(PR_2_SPLIT_DOT) || P2F_REC(IN.blk, 0) > 24u || p2_logged(PR_2_DOT_NULL_TERM),
 	      "split raised only when more than 12 spare bytes follow");
 	if (p2_nlog) REACH("grey zone is not empty");
 	CHECK(r != 0 || w.buf[IN.k] == w.b0, "'not modified' means no byte changed");
-	CHECK(P2F_DOT_FORMAT_OK(w.buf, P2_DOT_OFF, IN.ino), "the entry stays a format-valid '.'");
+	CHECK(P2F_DOT_FORMAT_OK(w.buf, 0, IN.ino), "the entry stays a format-valid '.'");
 	REACH("end");
 }
 
@@ -224,7 +223,7 @@ void h_dot_inline(void)
 	int r, filetype = 0;
 
 	LOAD_IN();
-	p2_setup(&w, P2_CHOICE, P2_DOT_OFF);
+	p2_setup(&w, P2_CHOICE, P2_VIEW_BLOCK0);
 	ASSUME(IN.ino != 0);
 	if (IN.incompat & P2F_INCOMPAT_FILETYPE)
 		filetype = EXT2_FT_DIR << 8;
